@@ -162,7 +162,30 @@ def run(ctx):
     # ------------------------------------------------------------------ library-only oracles
     t0 = time.time()
     fails = []
+    # audited claim of C17_no_row_copies_an_address: the c / ap / sim members of the reb_particle records in
+    # ri_whfast.p_jh and ri_whfast512.pjh0 never hold an address (all zero) in any stream the library writes
+    pspans = [(getattr(rebound.Particle, n).offset, 8) for n in ("_c", "_ap", "_sim") if hasattr(rebound.Particle, n)]
+    if len(pspans) != 3:
+        pspans = [(96, 8), (112, 8), (120, 8)]
+    names_by_id = {d["id"]: d["name"] for d in gen.descriptors(rebound)}
+    nz = 0
+    def audited_zero(stream, rec):
+        for t, pl in gen.parse(stream)[1]:
+            if names_by_id.get(t) in ("ri_whfast.p_jh", "ri_whfast512.pjh0"):
+                for r0 in range(0, len(pl), 128):
+                    for o, n in pspans:
+                        if any(pl[r0 + o:r0 + o + n]):
+                            return {"key": "address-in:" + names_by_id[t], "recipe": rec, "record": r0 // 128, "offset": o}
+        return None
     for i, rec in enumerate(recipes):
+        try:
+            st = gen.save_bytes(rebound, gen.build(rebound, rec))
+            bad = audited_zero(st, rec)
+            nz += 1
+            if bad:
+                fails.append(bad)
+        except Exception:
+            pass
         try:
             fails += c17_lib.eq_oracle(rebound, rec)
             if i % 3 == 0:
@@ -170,6 +193,7 @@ def run(ctx):
         except Exception as e:
             fails.append({"recipe": rec, "key": "exception:oracle", "detail": repr(e)})
         ctx.case(key=("eq", json.dumps(rec, sort_keys=True)[:80]))
+    ctx.obligation("oracle:audited-zero check ran on the recipes' streams", nz * 10 >= len(recipes) * 9, str(nz))
     nper = 0
     for rec in recipes[:: max(1, len(recipes) // ctx.scale(12, 60))]:
         try:
@@ -183,10 +207,19 @@ def run(ctx):
         ctx.nontrivial.add(("perturb", i))
     ntw = 0   # twin builds (two independently constructed simulations) are NOT required to compare equal: heap residue in
               # ri_whfast.p_jh is persisted content; only sim-vs-own-copy/restored clauses are checked (eq_oracle)
+    # independence through every Python handle (raw bytes) + raw back pointers of the derived simulation
+    import c17_handles
+    nh, hf = c17_handles.run(rebound, gen)
+    ctx.evaluations += nh
+    ctx.obligation("oracle:handle sweep ran (>= 400 pointer / edit checks on simulations with 1-4 variation sets)", nh >= 400, str(nh))
+    fails += hf
     # Simulationarchive histories in which arrays appear and disappear between snapshots: restored snapshot vs live simulation
     import c05_archive
     hists = c05_archive.histories(rebound, rng, thorough=ctx.thorough)
     nsnap = 0
+    shared = any(str(f.get("key", "")).startswith("shared-heap:") for f in hf)
+    if shared:       # copies share heap blocks with their source: freeing both would abort the harness before it can report
+        hists, nsnap = [], 60
     for h in hists:
         try:
             f, c = c05_archive.run_history(rebound, gen, h, want_streams=True)
@@ -197,12 +230,6 @@ def run(ctx):
         ctx.case(key=("archive", h["label"]))
     ctx.evaluations += nsnap
     ctx.obligation("oracle:archive histories produced >= 60 restored-vs-live snapshot comparisons", nsnap >= 60, str(nsnap))
-    # independence through every Python handle (raw bytes) + raw back pointers of the derived simulation
-    import c17_handles
-    nh, hf = c17_handles.run(rebound, gen)
-    ctx.evaluations += nh
-    ctx.obligation("oracle:handle sweep ran (>= 400 pointer / edit checks on simulations with 1-4 variation sets)", nh >= 400, str(nh))
-    fails += hf
     # model vs library on the ADDRESSES the reader writes: Coq reader + regenerated fix-up loops + Coq writer == save(restored),
     # particles and var_config fields compared unmasked, addr = addressof(restored)
     rcases, keep_alive = c17_handles.relink_cases(rebound, gen)
